@@ -31,6 +31,15 @@ CLAIMS = {
  "C02": ("access-path identity between the validated string and the stored ID token (branch facts), field-wise provenance of stored tokens, assumed-atom path feasibility on the validator (audience/nonce), forbidden-API scan over resolved callees, table rules on the header encoder",
          "Decides that no SetTokenResponse is reachable unless the validator accepted the very ID token being stored and the other token fields come from this check's token-endpoint answer or the stored tokens; that the validator cannot return `valid` without key-set signature verification over the parsed bytes, a client-id audience match and (when required) a present, equal nonce; that no jwx shortcut option is used; and that OK headers are exactly the bound tokens under their own header/preamble. Acceptance of concrete forged tokens is delegated to jwx through the one permitted API shape.",
          "go/ssa model; jwx WithKeySet+WithInferAlgorithmFromKey contract"),
+ "C04": ("branch facts at the code-exchange call, exact table rules on the token request (url.Values / http.Header literals) and on the exchange function, SSA value identity between issued and stored state/nonce/verifier, must-pass consumption rule",
+         "Decides that the code exchange is reachable only for this cookie's session with a loaded login state whose state equals the request's (exact string comparison), that the request carries exactly the stored verifier, configured redirect URI and Basic client credentials to the configured token URI, that what is sent in the redirect is what is stored, and that tokens are bound only after the login state was cleared. Concurrent replay of one callback is not decided.",
+         "go/ssa model; oauth2.S256ChallengeFromVerifier and net/url contracts"),
+ "C05": ("SSA value identity (fresh id ↔ cookie ↔ state key), assumed-atom path feasibility for remove-before-generate, failure-region reachability, call-site facts for the presented id, constant-set rules on cookie name and directives, who-may-write scan for set-cookie",
+         "Decides that the redirect's cookie and login-state key are one fresh generator result, that a presented session is removed first and a failed removal stops the redirect, that tokens are only stored under ids with a successful prior read, and that cookie name and directives have the required constant shape with a single writer; logout sets timeout 0. Value inequality of ids is C06's question.",
+         "go/ssa model; user agents honour the __Host- prefix rules"),
+ "C13": ("provenance of the Location values, exact eight-key table rule with sources, guarded merge of the endpoint's own query, leaf-set rule on the stored return URL, constructor-provenance rule for every redirect answer",
+         "Decides that the login Location is the rendering of the parsed authorization URI with RawQuery = Encode(table ∪ endpoint query), never a \"?\" concatenation; that the table has exactly the eight parameters from their configured/issued sources; that the return URL is stored and replayed verbatim from scheme/host/path/query; and that every redirect carries the no-cache headers. Character-level escaping is delegated to net/url.",
+         "go/ssa model; net/url contracts"),
 }
 
 NOT_YET = "check under construction in this round; see DESIGN.md section 4 for the planned static rules"
